@@ -23,6 +23,7 @@ import (
 	"go/token"
 	"go/types"
 	"math/big"
+	"sort"
 	"strings"
 )
 
@@ -381,19 +382,35 @@ func c10members(c *Ctx, rule string) {
 	m.it.maxLoop = 64
 	val := m.it.valuation
 	val["lam"], val["phi"], val["lam2"], val["phi2"] = -1.62, 0.72, -1.58, 0.69
-	val["p40"] = 14
+	val["p40"], val["p34"] = 14, 0.3048
 	// parameters in a usable range (degrees where the texts are in degrees)
 	val["p1"], val["p2"], val["p3"], val["p4"] = 33, 45, 39, -96
 	symWiden = val
 	defer func() { symWiden = nil }()
-	defs := []struct{ name, text string }{
-		{"merc", "+proj=merc +lon_0=P4 +k_0=P13 +x_0=P5 +y_0=P6 +a=P7 +rf=P8 +no_defs"},
-		{"lcc", "+proj=lcc +lat_1=P1 +lat_2=P2 +lat_0=P3 +lon_0=P4 +x_0=P5 +y_0=P6 +a=P7 +rf=P8 +no_defs"},
-		{"aea", "+proj=aea +lat_1=P1 +lat_2=P2 +lat_0=P3 +lon_0=P4 +x_0=P5 +y_0=P6 +a=P7 +rf=P8 +no_defs"},
-		{"eqdc", "+proj=eqdc +lat_1=P1 +lat_2=P2 +lat_0=P3 +lon_0=P4 +x_0=P5 +y_0=P6 +a=P7 +rf=P8 +no_defs"},
-		{"tmerc", "+proj=tmerc +lat_0=P3 +lon_0=P4 +k_0=P13 +x_0=P5 +y_0=P6 +a=P7 +rf=P8 +no_defs"},
-		{"utm", "+proj=utm +zone=P40 +a=P7 +rf=P8 +no_defs"},
-		{"longlat", "+proj=longlat +a=P7 +rf=P8 +no_defs"},
+	// every registered projection, under its first short name, with every parameter a projection
+	// of the registry reads given a symbol (a projection ignores what it does not use)
+	type defT struct{ name, text string }
+	var defs []defT
+	{
+		reg := projRegistry(c)
+		byCtor := map[*types.Func][]string{}
+		for n, f := range reg.names {
+			byCtor[f] = append(byCtor[f], n)
+		}
+		for _, ns := range byCtor {
+			sort.Slice(ns, func(i, j int) bool {
+				if len(ns[i]) != len(ns[j]) {
+					return len(ns[i]) < len(ns[j])
+				}
+				return ns[i] < ns[j]
+			})
+			name := ns[0]
+			if strings.ContainsAny(name, " +=") {
+				continue
+			}
+			defs = append(defs, defT{name, "+proj=" + name + " +lat_1=P1 +lat_2=P2 +lat_0=P3 +lon_0=P4 +k_0=P13 +x_0=P5 +y_0=P6 +zone=P40 +to_meter=P34 +a=P7 +rf=P8 +no_defs"})
+		}
+		sort.Slice(defs, func(i, j int) bool { return defs[i].name < defs[j].name })
 	}
 	callM := func(fn oval, a, b poly) ([]oval, string) {
 		c.Evals(1)
